@@ -620,6 +620,147 @@ Proof.
 Qed.
 
 (* ====================================================================== *)
+(* the gate: a Plutus script executed for ANY purpose, however supplied,   *)
+(* makes the method go on to select collateral                             *)
+(* ====================================================================== *)
+(* script hashes identify scripts (the class tag is part of the hash preimage) *)
+Definition hash_fun (l : list sref) : Prop :=
+  forall a b, In a l -> In b l -> s_hash a = s_hash b -> s_kind a = s_kind b.
+
+Definition sfold (l : list sref) (d : dict sref) : dict sref := fold_left (fun d s => dset d (s_hash s) s) l d.
+
+Lemma sfold_keep l : forall d k v, dget d k = Some v ->
+  exists v', dget (sfold l d) k = Some v' /\ (v' = v \/ (In v' l /\ s_hash v' = k)).
+Proof.
+  induction l as [|a l IH]; intros d k v G; cbn.
+  - exists v. split; [exact G | now left].
+  - destruct (bytes_eqb (s_hash a) k) eqn:E.
+    + apply bytes_eqb_eq in E. subst k.
+      destruct (IH (dset d (s_hash a) a) (s_hash a) a (dget_dset_same _ _ _)) as (v' & G' & [->|[I H]]).
+      * exists a. split; [exact G'|]. right. split; [now left | reflexivity].
+      * exists v'. split; [exact G'|]. right. split; [now right | exact H].
+    + apply bytes_eqb_neq in E.
+      destruct (IH (dset d (s_hash a) a) k v) as (v' & G' & [->|[I H]]).
+      * rewrite dget_dset_other; assumption.
+      * exists v. split; [exact G' | now left].
+      * exists v'. split; [exact G'|]. right. split; [now right | exact H].
+Qed.
+
+Lemma sfold_in l : forall d s, In s l ->
+  exists v', dget (sfold l d) (s_hash s) = Some v' /\ In v' l /\ s_hash v' = s_hash s.
+Proof.
+  induction l as [|a l IH]; intros d s I; [destruct I|]. cbn.
+  destruct I as [->|I].
+  - destruct (sfold_keep l (dset d (s_hash s) s) (s_hash s) s (dget_dset_same _ _ _)) as (v' & G & [->|[J H]]).
+    + exists s. split; [exact G|]. split; [now left | reflexivity].
+    + exists v'. split; [exact G|]. split; [now right | exact H].
+  - destruct (IH (dset d (s_hash a) a) s I) as (v' & G & J & H).
+    exists v'. split; [exact G|]. split; [now right | exact H].
+Qed.
+
+Lemma dget_in_values (d : dict sref) k v : dget d k = Some v -> In v (map snd d).
+Proof.
+  induction d as [|[k' v'] r IH]; cbn; [discriminate|].
+  destruct (bytes_eqb k' k); [intros [= ->]; now left | intros G; right; now apply IH].
+Qed.
+
+Lemma dset_values (d : dict sref) k v x : In x (map snd (dset d k v)) -> x = v \/ In x (map snd d).
+Proof.
+  induction d as [|[k' v'] r IH]; cbn.
+  - intros [<-|[]]. now left.
+  - destruct (bytes_eqb k' k); cbn.
+    + intros [<-|I]; [now left | right; now right].
+    + intros [<-|I]; [right; now left|]. destruct (IH I) as [->|J]; [now left | right; now right].
+Qed.
+
+Lemma sfold_values l : forall d x, In x (map snd (sfold l d)) -> In x l \/ In x (map snd d).
+Proof.
+  induction l as [|a l IH]; intros d x I; cbn in I; [now right|].
+  destruct (IH _ _ I) as [J|J]; [left; now right|].
+  destruct (dset_values _ _ _ _ J) as [->|K]; [left; now left | now right].
+Qed.
+
+Lemma dpop_values (d : dict sref) k x : In x (map snd (dpop d k)) -> In x (map snd d).
+Proof.
+  induction d as [|[k' v'] r IH]; cbn; [tauto|].
+  destruct (bytes_eqb k' k); cbn; [intros I; now right | intros [<-|I]; [now left | right; now apply IH]].
+Qed.
+
+Lemma pops_values l : forall (d : dict sref) x,
+  In x (map snd (fold_left (fun d s => dpop d (s_hash s)) l d)) -> In x (map snd d).
+Proof.
+  induction l as [|a l IH]; intros d x I; cbn in I; [exact I|].
+  eapply dpop_values. eapply IH. exact I.
+Qed.
+
+Lemma wit_has_of_kind ss s : In s (wit_scripts ss) -> is_plutus s = true ->
+  wit_has SV1 ss || wit_has SV2 ss || wit_has SV3 ss = true.
+Proof.
+  intros I Pl. unfold wit_has.
+  assert (H : forall k, s_kind s = k -> existsb (fun s0 => skind_eqb (s_kind s0) k) (wit_scripts ss) = true).
+  { intros k E. apply existsb_exists. exists s. split; [exact I|]. rewrite E. destruct k; reflexivity. }
+  unfold is_plutus in Pl. destruct (s_kind s) eqn:K; try discriminate.
+  - rewrite (H SV1 eq_refl). reflexivity.
+  - rewrite (H SV2 eq_refl). apply orb_true_iff. left. apply orb_true_r.
+  - rewrite (H SV3 eq_refl). apply orb_true_r.
+Qed.
+
+(* COMPLETENESS of the gate: if any script the transaction executes (spend / mint / withdrawal / certificate table)
+   is a Plutus script, the method does not take the early return — whether that script ends up in the witness set
+   or is popped from it because a reference UTxO supplies it *)
+Theorem gate_complete ss s :
+  hash_fun (ss_native ss ++ purposes ss) -> In s (purposes ss) -> is_plutus s = true ->
+  needs_collateral ss = true.
+Proof.
+  intros HF I Pl. unfold needs_collateral.
+  destruct (ss_refs ss) as [|r0 rs] eqn:R; [|now rewrite andb_false_r].
+  rewrite andb_true_r.
+  assert (I' : In s (ss_native ss ++ purposes ss)) by (apply in_app_iff; now right).
+  destruct (sfold_in (ss_native ss ++ purposes ss) [] s I') as (v' & G & J & H).
+  assert (W : In v' (wit_scripts ss)).
+  { unfold wit_scripts. rewrite R. cbn [fold_left]. eapply dget_in_values. exact G. }
+  assert (Pv : is_plutus v' = true).
+  { unfold is_plutus in *. rewrite (HF v' s J I' H). exact Pl. }
+  pose proof (wit_has_of_kind ss v' W Pv) as E.
+  destruct (wit_has SV1 ss), (wit_has SV2 ss), (wit_has SV3 ss); cbn in *; try reflexivity; discriminate.
+Qed.
+
+(* SOUNDNESS of the gate: the method goes on only if a reference script is in use or one of the builder's tables
+   holds a Plutus script *)
+Theorem gate_sound ss : needs_collateral ss = true ->
+  ss_refs ss <> [] \/ exists s, In s (ss_native ss ++ purposes ss) /\ is_plutus s = true.
+Proof.
+  unfold needs_collateral. intros H.
+  destruct (ss_refs ss) as [|r0 rs] eqn:R; [|left; discriminate]. right.
+  rewrite andb_true_r in H.
+  assert (E : exists k, k <> SNative /\ wit_has k ss = true).
+  { destruct (wit_has SV1 ss) eqn:E1; [exists SV1; split; [discriminate|exact E1]|].
+    destruct (wit_has SV2 ss) eqn:E2; [exists SV2; split; [discriminate|exact E2]|].
+    destruct (wit_has SV3 ss) eqn:E3; [exists SV3; split; [discriminate|exact E3]|]. discriminate. }
+  destruct E as (k & Nk & Wk). unfold wit_has in Wk. apply existsb_exists in Wk as (s & I & Ks).
+  exists s. split.
+  - unfold wit_scripts in I. apply pops_values in I. apply sfold_values in I as [I|[]]. exact I.
+  - unfold is_plutus. destruct (s_kind s), k; cbn in *; try reflexivity; try discriminate; now elim Nk.
+Qed.
+
+(* MAIN, stated over the builder's script tables: a transaction that executes a Plutus script for some purpose and
+   has a return address gets collateral that satisfies the ledger rule, or an explicit error *)
+Corollary set_collateral_return_ss_ok P cpb addr ss s explicit inputs pot at_addr colls o fee :
+  hash_fun (ss_native ss ++ purposes ss) -> In s (purposes ss) -> is_plutus s = true ->
+  set_collateral_return_ss (min_lovelace_ret cpb addr) P ss true explicit inputs pot at_addr = (colls, o) ->
+  completed o ->
+  wfc (explicit ++ inputs ++ pot ++ at_addr) ->
+  nonneg (explicit ++ inputs ++ pot ++ at_addr) ->
+  Forall (fun c => (c_type c <= 8)%N) (explicit ++ inputs ++ pot ++ at_addr) ->
+  0 < collateral_amount P -> 0 <= p_percent P -> 0 <= cpb ->
+  fee <= p_max_fee P + p_fee_buffer P ->
+  collateral_ok (mkLP (p_percent P) (p_max_inputs P) cpb) fee colls (ret_of addr o) (total_of o) = true.
+Proof.
+  intros HF I Pl Run. unfold set_collateral_return_ss in Run. rewrite (gate_complete ss s HF I Pl) in Run.
+  now apply set_collateral_return_ok_concrete.
+Qed.
+
+(* ====================================================================== *)
 (* non-vacuity: a concrete wallet on which every hypothesis holds          *)
 (* ====================================================================== *)
 Module Ex.
@@ -661,6 +802,22 @@ Module Ex.
   Proof. reflexivity. Qed.
   Example refuse_count : snd (set_collateral_return (min_lovelace_ret 4310 addr) (mkCP 2174277 0 150 1 1000000) true true [a; b] [] [] []) = OErrCount.
   Proof. reflexivity. Qed.
+  (* the gate.  h2: a Plutus V2 script, hn: a native script *)
+  Definition h2 := mkS (repeat Byte.xb2 28) SV2.
+  Definition hn := mkS (repeat Byte.x33 28) SNative.
+  (* script carried by the spent UTxO itself (or given as an object): it is in _inputs_to_scripts, not in _reference_scripts *)
+  Definition ss_self := mkSS [] [h2] [] [] [] [].
+  (* the same script used for spending through a reference UTxO and for minting as an object: popped from the witness set *)
+  Definition ss_ref := mkSS [] [h2] [h2] [] [] [h2].
+  Definition ss_nat := mkSS [hn] [hn] [] [] [] [].
+  Example gate_self : needs_collateral ss_self = true /\ wit_scripts ss_self = [h2]. Proof. split; reflexivity. Qed.
+  Example gate_ref : needs_collateral ss_ref = true /\ wit_scripts ss_ref = []. Proof. split; reflexivity. Qed.
+  Example gate_native : needs_collateral ss_nat = false. Proof. reflexivity. Qed.
+  Example gate_hyps : hash_fun (ss_native ss_self ++ purposes ss_self) /\ In h2 (purposes ss_self) /\ is_plutus h2 = true.
+  Proof. split; [|split; [now left | reflexivity]]. intros x y [<-|[]] [<-|[]] _. reflexivity. Qed.
+  Example run_ss : set_collateral_return_ss (min_lovelace_ret 4310 addr) P ss_self true [] [a; s] [b] [] = run.
+  Proof. reflexivity. Qed.
+
   (* a duplicated explicit collateral is counted once *)
   Example dedup_explicit : fst (set_collateral_return (min_lovelace_ret 4310 addr) P true true [b; b] [] [] []) = [b].
   Proof. reflexivity. Qed.
